@@ -417,7 +417,9 @@ def c06_streams(tier, rng):
     # images are self-delimiting: the `reload` op appends a trailer and checks tellg
     return [StreamSet("persist", "asan", cases), StreamSet("longcodes", "asan", lc, timeout=120),
             StreamSet("scale", "asan", scale_cases(tier, rng, scale_ops_persist, phases=("loaded", "generic")), timeout=600),
-            StreamSet("reload-every-size", "asan", sweep_cases(tier, rng), timeout=900)]
+            StreamSet("reload-every-size", "asan", sweep_cases(tier, rng), timeout=900),
+            StreamSet("rpdac-image", "asan", [c for c in rpdac_cases(tier, rng, 30 if tier == "thorough" else 10) if c[2] == "RPDAC"],
+                      phase2=rpdac_phase2, timeout=60)]
 
 
 def c08_ops(kind, pv, S, r):
@@ -1463,6 +1465,10 @@ def rpdac_phase2(case, impl_lines):
             ops.append(["hfchk", strs, src[1] if len(src) > 1 else "-", str(case[3].get("hs", 0)), d.get("ts", "0"), d.get("occ", "-"), d.get("t", "0"),
                         d.get("mc", "0"), d.get("rules", "-"), d.get("cls", "-"), d.get("offs", "-"), d.get("loc", "-"), d.get("abs", "-")])
             k += 1
+        elif len(t) >= 4 and t[1] == "RI":
+            d = dict(x.split("=", 1) for x in t[2:])
+            ops.append(["richk", d.get("img", "-"), d.get("el", "0"), d.get("ml", "0"), d.get("t", "0"), d.get("mc", "0"), d.get("rules", "-")])
+            k += 1
         elif len(t) >= 2 and t[1] == "RQ":
             ops.append(["rdskip"])
             k += 1
@@ -1484,7 +1490,7 @@ def rpdac_cases(tier, rng, k):
         qh = ",".join(hx(q) for q in qs) or "-"
         ps = [p for p in gen.prefixes_of(r, S, 14) if p][:20]
         ph = ",".join(hx(p) for p in ps) or "-"
-        cases.append(("rq_%s" % name, "rpdac", "RPDAC", {}, S, [["rd", qh, ph], ["reload"], ["rd", qh, ph]]))
+        cases.append(("rq_%s" % name, "rpdac", "RPDAC", {}, S, [["rd", qh, ph], ["ri"], ["reload"], ["rd", qh, ph], ["ri"]]))
         for ov in (0, 25):
             hs = int(len(S) * (1 + (ov * 1.0 / 100.0)))
             cases.append(("hq_%s_%d" % (name, ov), "rpdac", "HASHRPDAC", {"ov": ov, "hs": hs}, S, [["hd", qh], ["reload"], ["hd", qh]]))
